@@ -3715,6 +3715,12 @@ func (r *Resolver) processDelegation(ctx context.Context, rs *resolveState, resp
 	// than restarting the lease (GHSA-mqfw-f48p-2vc8).
 	observedAt := time.Now()
 	leaseDeadline := observedAt.Add(time.Duration(nsInfo.nsTTL) * time.Second)
+	// The delegation cache never keeps an entry longer than its ceiling; the
+	// deadline handed to the answer cache must not either, or answers learned
+	// through a delegation with a longer NS TTL outlive the delegation itself.
+	if ceiling := observedAt.Add(authority.MaximumLease); leaseDeadline.After(ceiling) {
+		leaseDeadline = ceiling
+	}
 
 	// DNSSEC validation for delegation
 	newParentDS, err := r.validateDelegation(ctx, rs.req, resp, q, rs.parentDS, rs.servers.Zone)
